@@ -160,6 +160,7 @@ CHECKS["C08"] = {
         rapid_job("random", "./verifh/c08", "TestIncludeRandom", 3000, 20000),
         rapid_job("tolerance-times", "./verifh/c08", "TestIncludeWithToleranceAndTimes", 4000, 30000),
         rapid_job("booking", "./verifh/c08", "TestBookingIntersects", 2000, 10000),
+        rapid_job("retried-deletes", "./verifh/c08", "TestFilteredViewAcrossRetriedDeletes", 3000, 20000),
     ],
 }
 
@@ -217,6 +218,7 @@ CHECKS["C03"] = {
         rapid_job("stress", "./verifh/c03", "TestStressSubscribe", 1500, 10000, timeout={Q: 150, T: 1200}),
         rapid_job("burst", "./verifh/c03", "TestBurstConvergence", 150, 1200, shards={Q: 2, T: 8}, timeout={Q: 300, T: 1200}),
         enum_job("paused-peer", "./verifh/c03", "TestPausedBackpressuredPeer"),
+        rapid_job("crowd", "./verifh/c03", "TestCrowdedResource", 1500, 10000, shards_t=8),
     ],
 }
 
@@ -388,6 +390,7 @@ CHECKS["C14"] = {
         rapid_job("fanspeed-steps", "./verifh/c14", "TestFanSpeedSmallSteps", 150, 1000, shards={"quick": 2, "thorough": 8}, timeout={"quick": 600, "thorough": 3000}),
         rapid_job("light-fade", "./verifh/c14", "TestLightFadeInterrupted", 6, 25, shards={"quick": 4, "thorough": 8}, timeout={"quick": 600, "thorough": 3000}),
         rapid_job("stream-churn", "./verifh/c14", "TestPullStreamChurn", 30, 120, shards={"quick": 3, "thorough": 8}, timeout={"quick": 600, "thorough": 3000}),
+        rapid_job("two-devices", "./verifh/c14", "TestSameMaskOnDifferentDevices", 1500, 10000, shards={"quick": 2, "thorough": 8}, timeout={"quick": 600, "thorough": 3000}),
     ],
 }
 
